@@ -24,6 +24,14 @@ def coq_err(e) -> str:
             % (S(e.filename), e.line, e.column, S(e.prefix), e.code, S(e.msg)))
 
 
+def printed_name(filename: str, cwd: str) -> str:
+    """the file as the GitHub annotation names it: relative to the working directory when it lies at or below it (by path
+    components), otherwise its absolute path"""
+    p = os.path.realpath(os.path.join(cwd, filename))
+    c = os.path.realpath(cwd)
+    return os.path.relpath(p, c) if p == c or p.startswith(c.rstrip("/") + "/") else p
+
+
 def make_error(rng, cwd: str):
     from refurb.error import Error
     prefix = rng.choice(["FURB", "FURB", "ABC", "WXYZ"])
@@ -40,6 +48,10 @@ def make_error(rng, cwd: str):
         parts.append(rng.choice(MSG_PARTS[:3] + MSG_PARTS[6:]))
     msg = "".join(parts) if sum(p.count("`") for p in parts) == n or rng.random() < 0.7 else "x"
     fname = os.path.join(cwd, rng.choice(["a.py", "pkg/mod.py", "dir with space/é.py", "x,y=z.py"]))
+    if rng.random() < 0.3:
+        # files outside the working directory (a sibling whose name begins like it, the parent, somewhere else) and relative spellings
+        fname = rng.choice([cwd + "-old/pkg/a.py", cwd + "2/b.py", cwd + ".bak/c.py", os.path.join(os.path.dirname(cwd), "up.py"), "/elsewhere/d.py",
+                            "rel.py", "./pkg/rel.py", "pkg/../rel2.py"])
     return cls(line=rng.choice([1, 7, 120, 99999]), column=rng.choice([0, 3, 79, 200]), msg=msg, filename=fname)
 
 
@@ -66,7 +78,7 @@ def run(ctx: Ctx) -> None:
             gh = rmain.format_as_github_annotation(e)
         except Exception as ex:  # noqa: BLE001
             gh = f"<{type(ex).__name__}>"
-        rel = os.path.relpath(e.filename, cwd)
+        rel = printed_name(e.filename, cwd)
         rows.append((e, plain, col, gh, rel))
         ctx.case(("err", plain), nontrivial="`" in e.msg, sample={"plain": plain} if rng.random() < 0.01 else None)
         ctx.count(f"backticks={e.msg.count('`')}")
@@ -80,7 +92,7 @@ def run(ctx: Ctx) -> None:
         m = re.fullmatch(r"::error line=(\d+),col=(\d+),title=Refurb (\w+),file=(.*?)::(.*)", gh, flags=re.S)
         p = re.fullmatch(r"(.*?):(\d+):(\d+) \[(\w+)\]: (.*)", plain, flags=re.S)
         if not m or not p or (m.group(1), m.group(2), m.group(3), m.group(5)) != (p.group(2), p.group(3), p.group(4), p.group(5)) \
-                or os.path.normpath(os.path.join(cwd, m.group(4))) != os.path.normpath(p.group(1)):
+                or os.path.normpath(os.path.join(cwd, m.group(4))) != os.path.normpath(os.path.join(cwd, p.group(1))):
             ctx.report("formats-disagree", f"plain and github renderings carry different fields: {plain!r} / {gh!r}", {"plain": plain, "github": gh})
     # format_errors: hint / order / exit
     reports = []
@@ -134,7 +146,7 @@ def run(ctx: Ctx) -> None:
                         # the model takes the file name the renderer prints (github: relative to cwd)
                         e2 = copy.copy(x)
                         if fmt == "github":
-                            e2.filename = os.path.relpath(x.filename, cwd)
+                            e2.filename = printed_name(x.filename, cwd)
                         its.append(f"IErr {coq_err(e2)}")
                 f = 2 if fmt == "github" else 1 if color else 0
                 rws.append(f"({coq.coq_list(its)}, {f}, {coq.coq_bool(quiet)}, {S(out)})")
